@@ -617,7 +617,7 @@ def gen_soak(r, check, tier):
     """One long single-threaded history of distinct frames (compact series
     descriptors, expanded by a pure function at execution time)."""
     kinds = ['flagchain', 'strings', 'keys', 'stamps', 'bodies', 'badutf8',
-             'badtag', 'deep']
+             'badtag', 'deep', 'partial', 'dupkeys']
     w = {k: r.choice((0, 1, 1, 2, 4)) for k in kinds}
     if not any(w.values()):
         w['strings'] = 1
